@@ -7,6 +7,11 @@ ALL = ["C%02d" % i for i in range(1, 21)]
 
 # id -> (level category, engine, technique, level text, level note, design ref)
 CLAIMED = {
+    "C15": ("model_checking", "S",
+            "stateless model checking (iterative context bounding, preemption bound 2 quick / 3 thorough) of the real subscriber built with the instrumentation overlay: explicit sync || Close (one and two Close callers), announce-triggered sync || Close, listener registration/cancellation || Close, and each of 11 entry points called after Close returned; Close can start at every scheduling point of a sync",
+            "Every explored schedule is an execution of the real code. 'Never returns' is decided by quiescence in the bubble with the caller unfinished (no timeout); after the first Close return the observation log must contain no block-hook call and no destination-store write; a running explicit sync ends successfully or is refused with the shutdown error; listener channels end closed; no goroutine with a library frame remains after cleanup. Evidence reports per scenario the bound all shards completed.",
+            "Cooperative scheduling at synchronization operations only; priority selects in source order; one publisher; quick tier cut by an internal budget (exhaustive:false, completed bound reported).",
+            "DESIGN.md 6/C15, 13"),
     "C08": ("model_checking", "S",
             "stateless model checking (iterative context bounding, preemption bound 2 quick / 3 thorough) of the real subscriber built with the instrumentation overlay: scenarios S1 announcement burst, S2 burst with a failing request, S3 k publishers x concurrency limit, S4 announcements + explicit sync, S5 two explicit syncs with scoped hooks; scheduling points at every lock, atomic, channel operation, select, spawn, publisher request, hook call and observation",
             "Every explored schedule is an execution of the real code; per publisher the hook log must split into batches that match the success events one to one, every ad up to the latest-synced one is reported exactly once, the last announced head is synced or has an error event, requests of one publisher never overlap, scoped hooks get exactly their own sync, concurrent announce-triggered syncs stay within the limit. Lost announcements show as the absence of a later event, which only quiescence detection (not a timeout) decides. Evidence reports per scenario the preemption bound that all shards completed.",
